@@ -136,6 +136,10 @@ func c06MustReject(t C06Tx) (bool, string) {
 			}
 		}
 	}
+	// the EIP-712 route understands exactly one option, its own
+	if route == "web3" && len(t.Ext) != 1 {
+		return true, "critical-option-not-understood-by-route"
+	}
 	return false, ""
 }
 
@@ -269,9 +273,11 @@ func c06Encode(n *chain.Node, t C06Tx) (bz []byte, signedProperly bool, err erro
 		bz, err = txb.TxConfig().TxEncoder()(bld.GetTx())
 		return bz, true, err
 	case "web3":
-		if len(t.Ext) == 1 {
+		{
+			// sign as a single-option EIP-712 tx; further options are appended behind the signed one (extension options
+			// are not covered by the EIP-712 sign bytes, so anybody can append them)
 			cc := c
-			cc.ExtOpts = nil
+			cc.ExtOpts = append([]*codectypes.Any{}, ext[1:]...)
 			cc.Mode = signing.SignMode_SIGN_MODE_LEGACY_AMINO_JSON
 			if bld, e := txb.EIP712(a, cc, 11235, true); e == nil {
 				bz, err = txb.TxConfig().TxEncoder()(bld.GetTx())
